@@ -21,7 +21,22 @@ from ruamel.yaml.comments import CommentedMap, CommentedSeq, CommentedSet
 from yamlpath.common import Parsers
 from yamlpath.wrappers import ConsolePrinter
 
-LOG = ConsolePrinter(SimpleNamespace(verbose=False, quiet=True, debug=False))
+class QuietLog(ConsolePrinter):
+    """The library logger with its stderr chatter muted (library-level
+    harnesses only; the CLI harness uses the tools' own logger)."""
+
+    def warning(self, message):
+        pass
+
+    def error(self, message, exit_code=None):
+        if exit_code is not None:
+            raise SystemExit(exit_code)
+
+    def critical(self, message, exit_code=1):
+        raise SystemExit(exit_code)
+
+
+LOG = QuietLog(SimpleNamespace(verbose=False, quiet=True, debug=False))
 _YAML = None
 
 
